@@ -219,7 +219,7 @@ impl Check {
         let transitions: u64 = self.parts.iter().map(|p| p.transitions).sum();
         let executions: u64 = self.parts.iter().map(|p| p.executions).sum();
         let distinct: u64 = self.parts.iter().map(|p| p.distinct_nontrivial).sum();
-        let exhaustive = self.parts.iter().all(|p| p.exhaustive);
+        let exhaustive = self.parts.iter().filter(|p| !p.name.contains("non-deciding")).all(|p| p.exhaustive);
         let mut samples: Vec<Value> = vec![];
         for p in &self.parts {
             for s in p.samples.iter().take(3) {
